@@ -794,7 +794,8 @@ func (fg *FuncGen) trCall(x *SCall, env *SpecEnv, hint types.Type) Val {
 					continue
 				}
 				enc.usesQuant = true
-				cs = append(cs, fmt.Sprintf("(forall ((r Int)) (! (=> (< r %s) (= (select %s r) (select %s r))) :pattern ((select %s r))))", env.preAlloc, cur, old, cur))
+				fg.needRootOf()
+				cs = append(cs, fmt.Sprintf("(forall ((r Int)) (! (=> (< (rootOf r) %s) (= (select %s r) (select %s r))) :pattern ((select %s r))))", env.preAlloc, cur, old, cur))
 			}
 		}
 		return Val{T: and(cs...), Typ: B}
